@@ -4,11 +4,15 @@
 (*   known : names of deviations currently listed as open findings            *)
 (*   cases : [t1, w1, t2, w2, t3]   parse -> node_to_wikitext -> parse ->     *)
 (*           node_to_wikitext -> parse of one document (abstract trees of     *)
-(*           ptree2, texts as atoms)                                          *)
+(*           ptree2, texts as atoms); a case of the generator's adjacency     *)
+(*           family also has  m = the tree its block reader gives             *)
 (*   subs  : [x, w, t]   x = a sub-tree, string or child list handed directly *)
 (*           to node_to_wikitext, w = its output, t = parse(w)                *)
 (* Per case TLC decides  Equiv(t2, t1), Equiv(t3, t2)  (the property) and,    *)
-(* DRIFT only, whether the real text equals Unparse of the abstract tree.     *)
+(* DRIFT only, whether the real text equals Unparse of the abstract tree and   *)
+(* whether Equiv(t1, m).  For a rejected case TLC also reports the numbers of  *)
+(* LIST nodes / nested LIST nodes / items / block nodes and names the seam     *)
+(* failure (lists-merged, list-nested, list-split, blocks-changed).            *)
 EXTENDS Unparse, Json, IOUtils
 
 Batch == JsonDeserialize(IOEnv.TRACE_FILE)
